@@ -346,6 +346,70 @@ pub fn parts(tier: Tier) -> Vec<(String, Rx, u64, Vec<u64>, u32)> {
     v
 }
 
+/// Reflection: a datagram an endpoint generated itself and that comes back to it (from its peer's address) was not passed
+/// to generate_payload_packet by its *session peer*: nothing may surface, the anti-replay state must not move, and the
+/// peer's genuine packets with the same sequence numbers must still surface afterwards. Secure and unsecure sessions
+/// (in an unsecure session the keys are derived by the library itself, so their independence per direction is on trial).
+pub fn reflection_case(unsecure: bool) -> Result<u64, Violation> {
+    use renetcode::{ClientAuthentication, ServerAuthentication, ServerConfig};
+    let bad = |sig: &str, msg: String| Violation::new(format!("C04/reflection/{}", sig), format!("{} session: {}", if unsecure { "unsecure" } else { "secure" }, msg));
+    let public = vec![server_addr(0)];
+    let (mut server, mut client) = if unsecure {
+        let s = NetcodeServer::new(ServerConfig {
+            current_time: Duration::ZERO,
+            max_clients: 4,
+            protocol_id: PROTOCOL,
+            public_addresses: public.clone(),
+            authentication: ServerAuthentication::Unsecure,
+        });
+        let c = NetcodeClient::new(Duration::ZERO, ClientAuthentication::Unsecure { protocol_id: PROTOCOL, client_id: 9, server_addr: server_addr(0), user_data: None })
+            .map_err(|e| bad("fixture", e.to_string()))?;
+        (s, c)
+    } else {
+        let t = make_token(&TokenSpec::new(9, 19, public.clone()));
+        (new_server(4, public.clone(), Duration::ZERO), new_client(Duration::ZERO, &t))
+    };
+    if !nc::connect(&mut server, &mut client, client_addr(1))? {
+        return Err(bad("fixture", "handshake failed".to_string()));
+    }
+    let mut steps = 0u64;
+    for k in 0..4u8 {
+        let up = vec![b'u', k];
+        let down = vec![b'd', k];
+        let pc = crate::link::guard("NetcodeClient::generate_payload_packet", || client.generate_payload_packet(&up).map(|(_, p)| p.to_vec()).ok())?.ok_or_else(|| bad("fixture", "client cannot send".into()))?;
+        let ps = crate::link::guard("NetcodeServer::generate_payload_packet", || server.generate_payload_packet(9, &down).map(|(_, p)| p.to_vec()).ok())?.ok_or_else(|| bad("fixture", "server cannot send".into()))?;
+        // the server's own datagram comes back to the server from the client's address
+        let before = server.verif_snapshot();
+        let r = nc::srv_process(&mut server, client_addr(1), &ps)?;
+        if r != nc::SR::None {
+            return Err(bad("own-datagram-accepted-by-server", format!("the server's own payload datagram #{} presented from the client's address produced {}", k, r.kind())));
+        }
+        if server.verif_snapshot() != before {
+            return Err(bad("own-datagram-changes-server-state", format!("the server's own payload datagram #{} changed the server's state", k)));
+        }
+        // the client's own datagram comes back to the client
+        let cb = client.verif_snapshot();
+        if let Some(p) = nc::cli_process(&mut client, &pc)? {
+            return Err(bad("own-datagram-accepted-by-client", format!("the client's own payload datagram #{} surfaced {:?} at the client", k, p)));
+        }
+        let ca = client.verif_snapshot();
+        if ca.state != cb.state || ca.last_packet_received_time != cb.last_packet_received_time {
+            return Err(bad("own-datagram-changes-client-state", format!("the client's own payload datagram #{} changed the client's state / receive timer", k)));
+        }
+        // the genuine directions still work (same sequence numbers as the reflected copies)
+        match nc::srv_process(&mut server, client_addr(1), &pc)? {
+            nc::SR::Payload { client_id: 9, bytes } if bytes == up => {}
+            other => return Err(bad("genuine-refused-after-reflection", format!("the client's payload #{} produced {} at the server", k, other.kind()))),
+        }
+        match nc::cli_process(&mut client, &ps)? {
+            Some(b) if b == down => {}
+            other => return Err(bad("genuine-refused-after-reflection", format!("the server's payload #{} surfaced {:?} at the client", k, other))),
+        }
+        steps += 6;
+    }
+    Ok(steps)
+}
+
 pub fn run(tier: Tier) -> i32 {
     let mut rep = Report::new("C04", tier);
     rep.rule("M1: every history up to length L over {deliver the genuine payload packet with sequence s (a second occurrence is the replay)} and, in one slot per history, {a tampered copy: prefix type/length bit, sequence bit, ciphertext bit, MAC bit, truncated by 1/16, extended by 1, from another connected client's address, sealed under another session's keys, sealed under another protocol id}, for sequence alphabets at the window boundaries (s, s+-255/256, multiples of 256) at bases 0, 2^32-256 (+2^56, 2^64-600), against both receivers (NetcodeServer::process_packet, NetcodeClient::process_packet) of a connected session; oracle = reference window: non-authentic surfaces nothing and leaves the anti-replay state (hook digest) unchanged; genuine surfaces at most once, byte-identical, attributed to the peer's id, and must surface when fresh and < 256 behind the highest accepted");
@@ -364,10 +428,34 @@ pub fn run(tier: Tier) -> i32 {
             }
         }
     }
+    // reflection of an endpoint's own datagrams, secure and unsecure sessions
+    {
+        let mut n = 0u64;
+        for unsecure in [false, true] {
+            n += 1;
+            if let Err(v) = reflection_case(unsecure) {
+                rep.violation("reflection", v, J::obj().set("kind", J::s("reflection")).set("unsecure", J::Bool(unsecure)));
+            }
+        }
+        rep.add_sweep("reflection", n, n, 2, vec!["4 payloads each way in a secure and an unsecure session: an endpoint's own datagram presented back to it surfaces nothing and changes nothing; the peer's genuine datagrams with the same sequence numbers still surface".to_string()]);
+    }
     rep.finish()
 }
 
 pub fn replay(j: &J) -> i32 {
+    if j.get("kind").and_then(|k| k.as_str()) == Some("reflection") {
+        let u = matches!(j.get("unsecure"), Some(J::Bool(true)));
+        return match reflection_case(u) {
+            Err(v) => {
+                println!("RESULT: violation {} — {}", v.signature, v.message);
+                1
+            }
+            Ok(_) => {
+                println!("RESULT: no violation");
+                0
+            }
+        };
+    }
     let tier = match j.get("tier").and_then(|t| t.as_str()) {
         Some("thorough") => Tier::Thorough,
         _ => Tier::Quick,
